@@ -612,4 +612,20 @@ def gen_scenarios(rng):
         ops.append({"op": "dequeue", "now": now + MS, "route": "", "target": "", "batch": b, "ttl": 30 * SEC, "snap": True})
         ops.append({"op": "stats", "now": now + 2 * MS, "snap": True})
         hs.append({"cfg": _cfg0(), "ops": ops, "snap_every": 1000, "c13_ok": True, "only": ["C13", "C05"]})
+    # S16: a batch of more than a hundred messages that FAILS on an item far down the list (an id repeated inside the batch, an id that is
+    #      already stored): the batch is refused as a whole - nothing of it is stored, whatever its size
+    for k in range(2):
+        now = BASE + rng.randrange(1000) * SEC
+        ops = [{"op": "enqueue", "now": now, "enq": [_enq("old0", body=160)]}]
+        n = rng.choice([150, 230])
+        enq = [_enq("Z%04d" % j, body=7) for j in range(n)]
+        if k == 0:
+            enq[120] = dict(enq[120], id=enq[7]["id"])        # repeated inside the batch
+        else:
+            enq[n - 20] = dict(enq[n - 20], id="old0")        # already stored
+        ops.append({"op": "enqueue_batch", "now": now + MS, "enq": enq, "snap": True})
+        ops.append({"op": "stats", "now": now + 2 * MS, "snap": True})
+        ops.append({"op": "enqueue_batch", "now": now + 3 * MS, "enq": [_enq("Z%04d" % j, body=7) for j in range(n)], "snap": True})   # the corrected batch goes in whole
+        ops.append({"op": "stats", "now": now + 4 * MS, "snap": True})
+        hs.append({"cfg": _cfg0(), "ops": ops, "snap_every": 1000, "c13_ok": True, "only": ["C02", "C13", "C12"]})
     return hs
